@@ -282,6 +282,9 @@ void body(V::Ctx &ctx)
                 }
                 // one outcome class per input: its one-shot class under relaxed=1,max=64, or "trivial"
                 V::outcome(nontrivial ? "nontrivial:" + primary : "trivial");
+                static std::set<std::string> sampled;
+                if (nontrivial && sampled.insert(primary).second)
+                    V::count("sample:'" + V::esc(s) + "' -> one-shot (relaxed, max 64) " + primary + "; all " + std::to_string(s.size() ? s.size() - 1 : 0) + " 2-piece splits x 4 configurations compared");
                 V::end_case();
             }
             int k = len - 1;
